@@ -238,11 +238,12 @@ Proof. exact abort_in_commit_section_refuted. Qed.
 Print Assumptions C10_abort_in_commit_section_refuted.
 
 (* ... which holds of the source under test (table generated from psutil/_common.py by ast on every
-   run): every call / raise / assert inside run, _remove_dead_reminders, _add_dict is one of the
-   operations that cannot raise there (no I/O, no logging, no user callback) *)
+   run): every call / raise / assert / yield in the commit sections of run (from the call of
+   _remove_dead_reminders to the store into self.cache), _remove_dead_reminders (from its first del
+   on) and _add_dict (from its first store on) is one of the operations that cannot raise there
+   (no I/O, no logging, no user callback); the translator fails closed when a section is not found *)
 Theorem C10_commit_section_cannot_raise :
   forallb op_safe gen_wrap_ops = true /\
-  forallb (fun f => existsb (fun fo => beqb (fst fo) f) gen_wrap_ops)
-          [bs "run"; bs "_remove_dead_reminders"; bs "_add_dict"] = true.
+  existsb (fun fo => beqb (fst fo) (bs "run") && beqb (snd fo) (bs "._remove_dead_reminders")) gen_wrap_ops = true.
 Proof. exact commit_section_cannot_raise. Qed.
 Print Assumptions C10_commit_section_cannot_raise.
